@@ -1,5 +1,6 @@
 import PySMT.Proofs.C10NNF
 import PySMT.Proofs.C10AIG
+import PySMT.Proofs.C10Fv
 import PySMT.Proofs.C10Partition
 import PySMT.Proofs.C10SelfSub
 import PySMT.Proofs.C10TimesShape
@@ -46,6 +47,9 @@ theorem nnf_shape (t : Term) (hwf : t.wf = true) : isNNF (nnf t) = true := Rewri
 theorem nnf_wf (t : Term) (hwf : t.wf = true) (hty : t.typeOf = some .bool) :
     (nnf t).wf = true ∧ (nnf t).typeOf = some .bool := Rewritings.nnf_wf t hwf hty
 
+/-- interface fact: `nnf` introduces no free symbol -/
+theorem nnf_fv (t : Term) (hwf : t.wf = true) : ∀ s ∈ (nnf t).fv, s ∈ t.fv := Rewritings.nnf_fv_main t hwf
+
 /-! ## and-inverter form -/
 
 theorem aig_equiv (t : Term) (hwf : t.wf = true) (hty : t.typeOf = some .bool) (I : Interp) (hI : I.WF) :
@@ -57,6 +61,10 @@ theorem aig_shape (t : Term) (hwf : t.wf = true) (hty : t.typeOf = some .bool) :
 
 theorem aig_wf (t : Term) (hwf : t.wf = true) (hty : t.typeOf = some .bool) :
     (aig t).wf = true ∧ (aig t).typeOf = some .bool := Rewritings.aig_wf t hwf hty
+
+/-- interface fact: `aig` introduces no free symbol -/
+theorem aig_fv (t : Term) (hwf : t.wf = true) (hty : t.typeOf = some .bool) : ∀ s ∈ (aig t).fv, s ∈ t.fv :=
+  Rewritings.aig_fv_main t ⟨hwf, hty⟩
 
 /-! ## top-level partitions -/
 
